@@ -57,7 +57,9 @@ class Base(object):
             if r.crash or r.exit not in (0, 1):  # 1: a completed run was part of the session (C10)
                 self.problems.append(('session A', r.status(), r.crash, r.stderr[-300:]))
         self.old = scn.read() or ''
-        r = scn.run()
+        self.flushes = []
+        with dd.observe_flushes(scn.data_path, self.flushes):
+            r = scn.run()
         if r.crash or r.exit not in (0, 1):  # 1: a completed run was part of the session (C10)
             self.problems.append(('session B', r.status(), r.crash, r.stderr[-300:]))
         full = scn.read() or ''
@@ -68,6 +70,20 @@ class Base(object):
         self.base_serial = scn.serial
         self.base_session = scn.session
         self.lines = dd.parse_file(self.appended)
+        # process-kill model: what can be on disk when the process dies are the flush boundaries.
+        # The model's writer flushes after the session block and after every data point.
+        want = set()
+        seen_data = False
+        for d in self.lines:
+            if d['kind'] in ('bench_meta', 'run_meta', 'meas') and not seen_data:
+                seen_data = True
+                want.add(d['start'])          # end of the session block (and header)
+            if d['kind'] == 'meas' and d['crit'] == 'total':
+                want.add(d['end'])
+        self.flush_offsets = sorted(set(self.flushes))
+        if set(self.flushes) != want:
+            self.problems.append(('flush boundaries differ from one per session block and one per data point',
+                                  sorted(set(self.flushes) - want)[:5], sorted(want - set(self.flushes))[:5], None))
         # precondition of every cut: the sessions recorded what the harness printed
         done = complete_dps(full, scn.starts)
         missing = [(st['n'], j) for st in scn.starts for j in range(len(st['dps'])) if (st['n'], j) not in done]
@@ -235,6 +251,8 @@ def judge_cut(acc, base, obs, answers):
     inp = {'params': base.params, 'cut': k, 'cut_in': cut_in, 'line': list(line_index(base, k)),
            'tail_before_cut': base.appended[max(0, k - 60):k], 'head_after_cut': base.appended[k:k + 30]}
     acc.count('cut:' + cut_in.split(':field')[0])
+    if k in base.flush_offsets:
+        acc.count('cut-at-flush-boundary')
     starts = obs['starts']
     sidx = {}
     for st in starts:
